@@ -87,10 +87,12 @@ def _history(tr, build_direct, build_entry, den_of, deterministic=True, on_pre_d
     fr = tr["case"].get("pre_abort")
     if fr is not None:
         # history: an earlier construction from the same inputs was abandoned part-way at an arbitrary line (CrashPoints.tla)
-        from ..crash import abort_frac
+        # (the crash point is chosen without a counting run first: a complete run would warm whatever module-level memo the
+        # implementation keeps, and the abandoned call is meant to be the one that meets it cold)
+        from ..crash import abort_at
         try:
             with watchdog(60):
-                tr["pre_abort_outcome"] = abort_frac(build_direct, build_direct, fr)
+                tr["pre_abort_outcome"] = abort_at(build_direct, 1 + int(fr * fr * 1500))
         except Timeout:
             raise
         if on_pre_done:
@@ -146,11 +148,14 @@ def run_manual(case):
         # one parameter dictionary for a whole pipeline: it also carries the keys other components read (their own JDD entry,
         # edge names, a network); the manual loader returns the dictionary given under ITS key
         from gcmpy import ToolsNames as TN, GCMAlgorithmNames as GN
+        if len(case["d"]) % 2:
+            p = {}                               # the other components' entries may have been stored first or last
         p[TN.JDD] = {(9,) * len(case["sizes"]): 1.0}
         p[TN.EDGE_NAMES] = ["x"] * len(case["sizes"])
         p[GN.MOTIF_SIZES] = [7] * len(case["sizes"])
-        p[JN.JDD] = d
-        p[JN.MOTIF_SIZES] = case["sizes"]
+        if len(case["d"]) % 2:
+            p[JN.JDD] = d
+            p[JN.MOTIF_SIZES] = case["sizes"]
     _history(tr, lambda: gcmpy.JointDegreeManual(dict(p)),
              lambda: gcmpy.JointDegreeDistribution.load_joint_degree({**p, JN.JOINT_DEGREE_TYPE: "manual"}),
              lambda key: D)
